@@ -223,6 +223,70 @@ def recur_rule(ctx, prog, reach, syn):
                 if bid not in table:
                     ctx.report(r, bid, "%s is reachable from a loader and may call itself (line %s); there is no reviewed termination argument for it: untrusted input may drive it into unbounded recursion (stack overflow aborts the process)" % (bid, t.get("line")), b.file, t.get("line"))
                 break
+    # mutual recursion: strongly connected components of the call graph among the loader-reachable functions
+    scc_table = load_safe("C19.SCC")
+    edges = prog.edges()
+    index, low, stack, onstack, comps = {}, {}, [], set(), []
+    counter = [0]
+    for root in sorted(reach):
+        if root in index:
+            continue
+        work = [(root, iter(sorted(w for w in edges.get(root, ()) if w in reach)))]
+        index[root] = low[root] = counter[0]
+        counter[0] += 1
+        stack.append(root)
+        onstack.add(root)
+        while work:
+            v, it = work[-1]
+            adv = False
+            for w in it:
+                if w not in index:
+                    index[w] = low[w] = counter[0]
+                    counter[0] += 1
+                    stack.append(w)
+                    onstack.add(w)
+                    work.append((w, iter(sorted(x for x in edges.get(w, ()) if x in reach))))
+                    adv = True
+                    break
+                elif w in onstack:
+                    low[v] = min(low[v], index[w])
+            if adv:
+                continue
+            work.pop()
+            if work:
+                low[work[-1][0]] = min(low[work[-1][0]], low[v])
+            if low[v] == index[v]:
+                comp = []
+                while True:
+                    w = stack.pop()
+                    onstack.discard(w)
+                    comp.append(w)
+                    if w == v:
+                        break
+                if len(comp) > 1:
+                    comps.append(sorted(comp))
+    for comp in sorted(comps):
+        k = "|".join(comp)
+        r.hit("scc:" + k[:80], sample={"cycle": comp, "reason": scc_table.get(k, "-")[:90]})
+        if k not in scc_table:
+            ctx.report(r, "cycle:" + "|".join(mirq.short_fn(x) for x in comp), "the loader-reachable functions %s can call each other in a cycle and there is no reviewed termination argument for that cycle: untrusted input (a file that includes itself, directly or through another file) may drive it into unbounded recursion, and a stack overflow aborts the process" % [mirq.short_fn(x) for x in comp], prog.bodies[comp[0]].file, prog.bodies[comp[0]].line)
+    ctx.floor(r, len(comps), 3, "call-graph cycles among loader-reachable functions")
+    # the dataset include cycle is bounded by a depth counter: checked, not trusted
+    vm = [f for f in syn.fns if f.name == "visit_map" and "AnnotationDataSetVisitor" in (f.self_ty or "") and f.body is not None]
+    if len(vm) != 1:
+        ctx.anchor_missing(r, "AnnotationDataSetVisitor::visit_map")
+    else:
+        arms = [a for a in walk(vm[0].body) if a.get("k") == "arm" and a["pat"]["s"].replace(" ", "") == '"@include"']
+        r.hit("dataset-include-depth")
+        okd = False
+        for a in arms:
+            guards = [n for n in walk(a["body"]) if n.get("k") == "if" and "depth" in unparse(n["cond"]) and re.search(r"(>=|>)", unparse(n["cond"])) and any(x.get("k") == "return" for x in walk(n["then"]))]
+            nested = [n for n in walk(a["body"]) if (n.get("k") == "structlit" and n["path"][-1] == "DeserializeAnnotationDataSet") or (n.get("k") == "mcall" and n["method"] in ("merge_json_file", "merge_json_str"))]
+            passes = any(n.get("k") == "structlit" and any(f_["name"] == "depth" and "+1" in unparse(f_["e"]).replace(" ", "") for f_ in n["fields"]) for n in nested)
+            if guards and nested and passes and min(g["l"] for g in guards) < min(n["l"] for n in nested):
+                okd = True
+        if not okd:
+            ctx.report(r, "dataset-include-depth", "the @include arm of AnnotationDataSetVisitor::visit_map re-enters the dataset reader without a depth bound (a test of its depth counter against a constant that returns an error, and depth + 1 handed to the nested reader): a dataset file that includes itself, directly or through other files, recurses until the stack overflows", vm[0].file, vm[0].line)
     fl = [f for f in syn.fns if f.name == "build" and (f.self_ty or "") == "TextResourceBuilder" and f.body is not None]
     if len(fl) != 1:
         ctx.anchor_missing(r, "fn TextResourceBuilder::build")
